@@ -161,7 +161,10 @@ def P_rules(rep, flow: Flow, which=("P1", "P2", "P3")):
         cp = conn_param(f)
         rets = [r for r in flow.paths(f.fq) if r.kind == "return"]
         for pi, r in enumerate(rets):
-            for (_, origin, term) in circuits_of(r.describe()):
+            cs = list(circuits_of(r.describe()))
+            if not cs:
+                raise AnalysisError(f"{f.module.rel} {f.qualname} return path #{pi}: the returned value ({fmt(r.describe())[:100]}) is not a circuit the interpreter can model: its gates are unknown")
+            for (_, origin, term) in cs:
                 check_term(rep, flow, f, cp, pi, r, term, which)
 
 
@@ -359,6 +362,9 @@ def P4_inverse(rep, flow: Flow, prep_fq="stabilizer_circuits.get_preparation_cir
     if not preps or not ros:
         raise AnalysisError("no return path for preparation or readout API")
     cores = set()
+    for r in preps + ros:
+        if not list(circuits_of(r.describe())):
+            raise AnalysisError(f"a return path of the preparation / readout API returns a value the interpreter cannot model ({fmt(r.describe())[:100]})")
     for r in preps:
         for (_, _, term) in circuits_of(r.describe()):
             cores.add(norm_term(core_without_sign_layer(term, both_ends=modulo_paulis)))
@@ -411,6 +417,8 @@ def P6_conservation(rep, flow: Flow, fqs, tables=None):
     for fq in fqs:
         f = flow.prog.func(fq)
         for pi, r in enumerate([r for r in flow.paths(fq) if r.kind == "return"]):
+            if not list(circuits_of(r.describe())):
+                raise AnalysisError(f"{f.module.rel} {f.qualname} return path #{pi}: the returned value ({fmt(r.describe())[:100]}) is not a circuit the interpreter can model: its two-qubit content is unknown")
             for (_, _, term) in circuits_of(r.describe()):
                 where = f"{f.module.rel} {f.qualname} return path #{pi}"
                 insts = set()
@@ -509,6 +517,10 @@ def served_analysis(flow: Flow, f):
                     out.append((pi, None, False, ev))
                     continue
                 kind, nk, ck = pat
-                gated = (nk, ck) in gate_accepts_events(r, i)
+                cp = conn_param(f)
+                # the REQUEST is gated: a gate call on the entry's own (qubit count, connectivity argument) precedes the
+                # read (that the file read is the one of the request is P1's question, not G2's)
+                gates = gate_accepts_events(r, i)
+                gated = any(c == ("param", cp) and own_N(n) for (n, c) in gates) or (nk, ck) in gates
                 out.append((pi, kind, gated, ev))
     return out
